@@ -304,3 +304,47 @@ class FiltT(Type):
         fl = FiltList.fresh(name, src)
         fl.as_array = self.as_array
         return fl, []
+
+
+class ObjT(Type):
+    """an object we never look into (an args tuple, a kwargs dict, ...): a constant of the uninterpreted sort Obj"""
+
+    def __init__(self, what="obj"):
+        self.what = what
+
+    def fresh(self, name):
+        from .interp import OBJ_SORT
+
+        return z3.Const(fresh_name(name), OBJ_SORT), []
+
+
+class StrT(Type):
+    def fresh(self, name):
+        return z3.String(fresh_name(name)), []
+
+
+Str = StrT()
+
+
+class PredT(Type):
+    """an unknown pure callable returning bool (a filter predicate)"""
+
+    def __init__(self, result_kind="bool"):
+        self.result_kind = result_kind
+
+    def fresh(self, name):
+        from .interp import UPred
+
+        return UPred(name, self.result_kind), []
+
+
+class FuncT(Type):
+    """an unknown pure callable returning a value of type `result`"""
+
+    def __init__(self, result):
+        self.result = result
+
+    def fresh(self, name):
+        from .interp import UFunc
+
+        return UFunc(name, self.result), []
